@@ -24,11 +24,11 @@ def scrub(x):
 def main(chk):
     seeds = int(os.environ.get("VERIF_DET_SEEDS", "24"))
     scale = os.environ.get("VERIF_DET_SCALE", "3")
-    sim, _ = chk.cargo_build("sim", "release", features=["dudect"])
+    sim, _ = chk.cargo_build("sim", "release", features=chk.FEATS)
     ct, _ = chk.load_tool("c14").build(chk, "release")
     if sim is None or ct is None:
         chk.die("determinism: build failed")
-    modes = [(sim, "c12"), (sim, "c05"), (sim, "c10"), (sim, "c16"), (sim, "digest"), (ct, "c14")]
+    modes = [(sim, "c12"), (sim, "c05"), (sim, "c10"), (sim, "c16"), (sim, "c08"), (sim, "world"), (sim, "digest"), (ct, "c14")]
     bad = 0
     total = 0
     tmp = tempfile.mkdtemp(prefix="fipsim-det-", dir=os.path.join(chk.VERIF, "build") if os.path.isdir(os.path.join(chk.VERIF, "build")) else None)
@@ -38,7 +38,7 @@ def main(chk):
             docs = []
             for w in ("16", "1", "5"):
                 ev = os.path.join(tmp, f"{mode}-{seed}-{w}.json")
-                p = subprocess.run([binp, mode, "--seed", seed, "--scale", scale, "--workers", w, "--evidence", ev, "--replay-dir", tmp],
+                p = subprocess.run([binp, mode] + (["--prop", "C09"] if mode == "world" else []) + ["--seed", seed, "--scale", scale, "--workers", w, "--evidence", ev, "--replay-dir", tmp],
                                    stdout=subprocess.PIPE, stderr=subprocess.STDOUT, text=True, env=chk.ENV)
                 if p.returncode != 0:
                     print(f"determinism: {mode} seed={seed} workers={w} exited {p.returncode}\n{p.stdout[-600:]}")
